@@ -85,12 +85,25 @@ class Translator:
                     seen.append((lo, hi))
         args = {p: arg_of(A[str(p)], op) for p in range(self.np)}
         base = {"op": op, "v": 1, "form": "vara", "mode": "coll", "itype": "int", "obs": OBS}
+        if op == "put" and self.rng.random() < 0.25:
+            # values passed as long long; on some ranks one of them does not fit the variable's type: NC_ERANGE there,
+            # the fill value is stored for that element, the record count grows all the same
+            base["itype"] = "longlong"
+            for p in range(self.np):
+                a = args[p]
+                if A[str(p)]["cls"] == "valid" and a.get("vals") and self.rng.random() < 0.5:
+                    k = self.rng.randrange(len(a["vals"]))
+                    a["mvals"] = list(a["vals"])
+                    a["mvals"][k] = "i:-2147483647"
+                    a["vals"] = list(a["vals"])
+                    a["vals"][k] = (1 << 40) + 5
+                    a["erange"] = 1
         st = dict(base)
         st.update(args[0])
         pr = {}
         for p in range(1, self.np):
             d = dict(args[p])
-            for k in ("stride", "vals", "n", "form", "v"):
+            for k in ("stride", "vals", "n", "form", "v", "mvals", "erange"):
                 if k in st and k not in d:
                     d[k] = base.get(k)       # restore the common value (None removes the key)
             pr[str(p)] = d
